@@ -181,6 +181,172 @@ def part_a(sh: Shard, seed, n):
         pass
 
 
+def part_a_session(sh: Shard, seed, nsnap):
+    """One long shell session, captured the way the README says: the shell's own `logfile` command,
+    then snapshot after snapshot (the log grows well past a megabyte); the whole file is parsed at
+    the end and must give every snapshot back, in order."""
+    from geckolib.spa import GeckoSpa
+    from geckolib.spa_descriptor import GeckoSpaDescriptor
+    from geckolib.utils.shell import GeckoShell
+    from geckolib.utils.snapshot import GeckoSnapshot
+    from vlib import tables
+
+    d = os.path.join(CACHE, "c19", f"session-{os.getpid()}")
+    os.makedirs(d, exist_ok=True)
+    path = os.path.join(d, "client.log")
+    for f_ in os.listdir(d):
+        os.unlink(os.path.join(d, f_))
+    packs, cfgs, logs = tables.module_stems()
+    r = rng("C19as", seed)
+    shell = GeckoShell.__new__(GeckoShell)
+    shell.stream_logger, shell.file_logger = None, None
+    root = logging.getLogger()
+    before_handlers, before_level = list(root.handlers), root.level
+    logging.disable(logging.NOTSET)
+    written = []
+    try:
+        shell.do_logfile(path)
+        for i in range(nsnap):
+            style, block = gen_block(r)
+            spa = GeckoSpa(GeckoSpaDescriptor(b"IOSx", b"SPA01:02:03:04:05:06", "Spa", ("10.0.0.1", 10022)))
+            spa.struct.set_status_block(block)
+            spa.new_pack_class = tables.import_stem(r.choice(packs)).GeckoPack(spa.struct)
+            en = (r.randrange(65536), r.randrange(256), r.randrange(256))
+            co = (r.randrange(65536), r.randrange(256), r.randrange(256))
+            spa.intouch_version_en = "{0} v{1}.{2}".format(*en)
+            spa.intouch_version_co = "{0} v{1}.{2}".format(*co)
+            spa.pack = spa.new_pack_class.name
+            spa.version = "{0} v{1}.{2}".format(r.randrange(65536), r.randrange(256), r.randrange(256))
+            spa.config_number = r.randrange(256)
+            spa.config_version, spa.log_version = r.randrange(1, 256), r.randrange(1, 256)
+            spa.pack_type = spa.new_pack_class.type
+
+            class F:
+                pass
+
+            shell.facade = F()
+            shell.facade.spa = spa
+            name = f"state {i}"
+            shell.do_snapshot(name)
+            written.append({"bytes": block, "packtype": spa.pack, "en": en, "co": co, "cfg": spa.config_version, "log": spa.log_version, "name": name})
+    finally:
+        for h in list(root.handlers):
+            if h not in before_handlers:
+                root.removeHandler(h)
+                h.close()
+        root.setLevel(before_level)
+        logging.disable(logging.CRITICAL)
+    sh.evaluations += 1
+    size = sum(os.path.getsize(os.path.join(d, f_)) for f_ in os.listdir(d))
+    sh.maximum("largest_shell_session_log_bytes", size)
+    wit = {"part": "a-session", "snapshots_written": nsnap, "log_bytes": size, "files_in_log_directory": sorted(os.listdir(d))}
+    try:
+        snaps = GeckoSnapshot.parse_log_file(path)
+        got = [{"bytes": s_.bytes, "packtype": s_.packtype, "en": s_.intouch_EN, "co": s_.intouch_CO, "cfg": s_.config_version, "log": s_.log_version, "name": s_.name} for s_ in snaps]
+    except Exception as e:
+        dd = describe_exc(e)
+        sh.violation("C19:a:raise", f"parsing a long shell session log raised {dd['type']}: {dd['msg']}", dict(wit, exc=dd))
+        got = None
+    if got is not None:
+        if len(got) != len(written):
+            missing = [w_["name"] for w_ in written if w_["name"] not in {g["name"] for g in got}][:5]
+            sh.violation("C19:a:session-count", f"{len(written)} snapshots written into one shell session log ({size} bytes), {len(got)} parsed back (missing e.g. {missing})", wit)
+        else:
+            bad = [i for i, (g, w_) in enumerate(zip(got, written)) if g != w_]
+            if bad:
+                k = [f for f in written[bad[0]] if got[bad[0]][f] != written[bad[0]][f]]
+                sh.violation(f"C19:a:mismatch:{'+'.join(k)}", f"snapshot #{bad[0]} of a long shell session does not parse back: {k} differ", wit)
+            else:
+                sh.count("long_shell_sessions_parsed_back")
+                sh.count("shell_roundtrips_ok", len(written))
+    sh.nontrivial(f"a-session:{seed}")
+    import shutil
+
+    shutil.rmtree(d, ignore_errors=True)
+
+
+def part_d(sh: Shard, seed, n):
+    """The whole capture pipeline of the blocking client: the real GeckoSpa connects (baton-scheduled
+    threads) to the simulator serving a snapshot with drawn firmware versions and block, the real
+    shell takes a snapshot of THAT connection, and the log parses back to what the spa served."""
+    from geckolib.utils.shell import GeckoShell
+    from geckolib.utils.snapshot import GeckoSnapshot
+    from vlib import tables
+    from vlib.trig import TRig
+    from vlib.vthreads import Deadlock, Stuck
+
+    os.makedirs(os.path.join(CACHE, "c19"), exist_ok=True)
+    path = os.path.join(CACHE, "c19", f"blocking-{os.getpid()}.log")
+    combos = tables.combos()
+    for i in range(n):
+        r = rng("C19d", seed, i)
+        plat, c, l = r.choice(combos)
+        style, block = gen_block(r)
+
+        class Snap:
+            pass
+
+        sn = Snap()
+        from geckolib.driver import GeckoAsyncStructure
+
+        sn.packtype = tables.import_stem(plat).GeckoPack(GeckoAsyncStructure(None, None)).name
+        sn.config_version, sn.log_version = c, l
+        sn.bytes = block
+        sn.intouch_EN = (r.randrange(65536), r.randrange(256), r.randrange(256))
+        sn.intouch_CO = (r.randrange(65536), r.randrange(256), r.randrange(256))
+        sn.name, sn.timestamp = "synthetic", "2020-01-01 00:00:00"
+        try:
+            rig = TRig(r, snapshot_obj=sn)
+        except Exception as e:
+            sh.count("blocking_capture_rig_not_set_up")
+            continue
+        try:
+            try:
+                ok = rig.connect()
+            except (Deadlock, Stuck):
+                ok = False
+            if not ok:
+                sh.count("blocking_capture_not_connected(C11/C18 subjects)")
+                continue
+            shell = GeckoShell.__new__(GeckoShell)
+
+            class F:
+                pass
+
+            shell.facade = F()
+            shell.facade.spa = rig.spa
+            sh.evaluations += 1
+            wit = {"part": "d", "tables": [plat, c, l], "en": sn.intouch_EN, "co": sn.intouch_CO, "block_style": style}
+            try:
+                with Capture(path, logging.INFO):
+                    shell.do_snapshot("captured")
+                snaps = GeckoSnapshot.parse_log_file(path)
+            except Exception as e:
+                d = describe_exc(e)
+                sh.violation("C19:d:raise", f"snapshot of a live blocking connection raised {d['type']}: {d['msg']}", dict(wit, exc=d))
+                continue
+            if len(snaps) != 1:
+                sh.violation("C19:a:count", f"one snapshot of a live blocking connection written, {len(snaps)} parsed", wit)
+                continue
+            s_ = snaps[0]
+            # (the pack name in the header of a live connection is what the block's own PackType item
+            # reads - the drawn block says anything there; part (a) covers the pack name)
+            got = {"bytes": s_.bytes, "en": s_.intouch_EN, "co": s_.intouch_CO, "cfg": s_.config_version, "log": s_.log_version}
+            exp = {"bytes": rig.sim_block, "en": sn.intouch_EN, "co": sn.intouch_CO, "cfg": c, "log": l}
+            bad = [k for k in exp if got[k] != exp[k]]
+            if bad:
+                sh.violation(f"C19:d:mismatch:{'+'.join(bad)}", f"a snapshot taken by the shell of a live blocking connection does not parse back to what the spa served: {bad} differ (e.g. {bad[0]}: got {got[bad[0]]!r:.60} served {exp[bad[0]]!r:.60})", wit)
+            else:
+                sh.count("blocking_connection_captures_ok")
+            sh.nontrivial(f"d:{seed}:{i}")
+        finally:
+            rig.close()
+    try:
+        os.unlink(path)
+    except OSError:
+        pass
+
+
 def part_b(sh: Shard, seed, n):
     import contextlib
     import io
@@ -388,18 +554,22 @@ def main(tier, seed):
     n = 100 if tier == "quick" else 3000
     res = run_shards("checks.c19", "part_a", [{"seed": seed * 100 + i, "n": n} for i in range(6)], timeout=1800)
     res += run_shards("checks.c19", "part_b", [{"seed": seed * 100 + i, "n": n} for i in range(6)], timeout=1800)
+    res += run_shards("checks.c19", "part_d", [{"seed": seed * 100 + i, "n": 12 if tier == "quick" else 150} for i in range(4)], timeout=1800)
+    res += run_shards("checks.c19", "part_a_session", [{"seed": seed * 100 + i, "nsnap": 190 if i == 0 else 40} for i in range(2 if tier == "quick" else 6)], timeout=1800)
     res += run_shards("checks.c19", "part_c", [{"files": files[i::4]} for i in range(4)], timeout=1800)
     res += run_shards("checks.c19", "part_c_session", [{"files": files, "seed": seed * 10 + i} for i in range(2 if tier == "quick" else 8)], timeout=1800)
     run.absorb(res)
     run.need(len(run.sets.get("files", set())) == len(files), "not every shipped snapshot file was visited")
     run.need(run.counters.get("snapshots_served_unchanged", 0) >= 30, "too few snapshots served to a client")
     run.need(run.counters.get("session_loads_identical", 0) >= 30, "simulator session loads not exercised")
+    run.need(run.counters.get("long_shell_sessions_parsed_back", 0) >= 1 and run.maxima.get("largest_shell_session_log_bytes", 0) > 1_100_000, "no shell session log of more than a megabyte was captured with the shell's own logfile command")
+    run.need(run.counters.get("blocking_connection_captures_ok", 0) >= 20, "too few snapshots taken of a live blocking connection")
     run.need(run.counters.get("shell_sessions_reused_for_another_spa", 0) > 20, "shell session reuse not exercised")
     run.need(run.counters.get("shell_roundtrips_ok", 0) + run.counters.get("traffic_roundtrips_ok", 0) > 100, "too few round trips")
     run.extra["shipped_files"] = len(files)
     run.sample({"part": "c", "files": [os.path.basename(f) for f in files[:3]]})
     return run.finish(
-        rule="(a) generated blocks (random, every byte value at every position class, quote/backslash/newline rich, protocol- and log-like text, zeros, high bytes) x version tuples over their ranges x printable names through the real GeckoShell.do_snapshot and parse_log_file; (b) the same blocks through the real simulator's segment chain for generated segment sizes (4..255) logged by the library's own DEBUG 'Received' line and parsed back; (c) every snapshot of every shipped file: parse, load into the simulator, serve to a real client in the virtual world; one evaluation = one round trip / one shipped snapshot",
+        rule="(a) generated blocks (random, every byte value at every position class, quote/backslash/newline rich, protocol- and log-like text, zeros, high bytes) x version tuples over their ranges x printable names through the real GeckoShell.do_snapshot and parse_log_file; (b) the same blocks through the real simulator's segment chain for generated segment sizes (4..255) logged by the library's own DEBUG 'Received' line and parsed back; (c) every snapshot of every shipped file: parse, load into the simulator, serve to a real client in the virtual world; (a-session) one long shell session captured with the shell's own logfile command (190 snapshots, > 1 MB) parsed at the end; (d) the blocking client connects to the simulator serving drawn versions and block, the real shell takes a snapshot of that live connection, the log parses back to what was served; one evaluation = one round trip / one shipped snapshot",
         assumptions=["log lines are formatted with the shell's log-file format '%(asctime)s %(name)s %(levelname)s %(message)s'", "a shipped snapshot with an incomplete header (no pack type / versions) is counted, not judged"],
     )
 
